@@ -33,6 +33,12 @@ def run(ctx):
                           "thorough_simulate": {"num": 2000, "depth": 120}, "timeout": 600, "thorough_timeout": 1500},
                      n_random=(20, 500), mode="conc", nontrivial=_ipam.overlapping, rule=RULE)
     _ipam.handle_soft(ctx, P)
+    if ctx.violations:
+        return
+    # sequential histories over pool layouts WITH reservations, disabled pools and selectors (the C20 universe):
+    # reserved ordinals are skipped inside a block, which is one more way for one address to reach two owners
+    _ipam.leg(ctx, BASE, "seeded-sequential-with-reservations", n_random=(40, 800), mode="seq",
+              nontrivial=_ipam.constrained_assign, rule=RULE)
     if ctx.violations or q:
         return
     _ipam.leg(ctx, BASE, "tlc-schedules-crash",
